@@ -173,6 +173,30 @@ def h_contraction(h, nf, perm):
     h.prove_close("pressure unchanged by permuting the fields", p2, p1, rtol=0, atol=1e-7)
 
 
+def h_lhs(h, nf, perm, sigma):
+    """the conservation function of the plasma profile is invariant under relabelling"""
+    h.patch(EOMM, float=npx.symfloat, np=npx.NP())
+    eom = EOMM.EOM.__new__(EOMM.EOM)
+    phi = h.reals("phi", (nf,), -10, 10)
+    dphi = h.reals("dphi", (nf,), -10, 10)
+    t = h.reals("shift", (nf,), -20, 20)
+    T = h.real("T", 0.01, 1e3, default=1.1)
+    s1, s2 = h.real("s1", -100, 100, default=-0.6), h.real("s2", -100, 100, default=0.4)
+    h.assume(core.ne(s1, 0), "T30 - T30_out != 0 (division in plasmaVelocity)")
+    Vv, dVdT = h.real("Vval", -100, 100, default=-1.0), h.real("dVdTval", -100, -1e-3, default=-1.2)
+    # consistently transformed potential: same value / temperature derivative at corresponding points
+    eom.thermo = types.SimpleNamespace(effectivePotential=types.SimpleNamespace(
+        evaluate=lambda f, T_: Vv, derivT=lambda f, T_: dVdT))
+    a = eom.temperatureProfileEqLHS(FieldPoint(phi), FieldPoint(dphi), T, s1, s2)
+    phi2 = _transform(phi, perm, sigma, t)
+    dphi2 = _transform(dphi, perm, sigma, [0.0] * nf)
+    b = eom.temperatureProfileEqLHS(FieldPoint(phi2), FieldPoint(dphi2), T, s1, s2)
+    h.prove_eq("conservation function invariant under translation, reflection, permutation", b, a, conc_rtol=1e-9)
+    va = eom.plasmaVelocity(FieldPoint(phi), T, s1)
+    vb = eom.plasmaVelocity(FieldPoint(phi2), T, s1)
+    h.prove_eq("plasma velocity invariant", vb, va)
+
+
 def h_fields(h):
     """Fields is (points x fields): accessors pick the documented axis"""
     A = h.reals("a", (3, 2), -5, 5)
@@ -230,6 +254,8 @@ HARNESSES = [
                encodes=[EOMM.EOM._updateGrid], random_validation=1),
     HarnessDef("pressure-contraction-permutation", h_contraction, _GQ, _GT, max_paths=10, timeout_s=60,
                encodes=[EOMM.EOM._intermediatePressureResults], random_validation=1),
+    HarnessDef("plasma-lhs-relabelling", h_lhs, _AQ, _AT, max_paths=10, timeout_s=60,
+               encodes=[EOMM.EOM.temperatureProfileEqLHS, EOMM.EOM.plasmaVelocity], random_validation=1),
     HarnessDef("fields-layout", h_fields, [dict()], max_paths=4, timeout_s=30,
                encodes=[Fields.getField, Fields.getFieldPoint, Fields.takeSlice, Fields.resizeFields,
                         Fields.setField, Fields.castFromNumpy], random_validation=1),
